@@ -416,7 +416,7 @@ class Theory:
 
     def _cut_loop(self, st: St, fr: Frame, node, ordinal: int, it: Optional[Iter]) -> List[Tuple[St, Exit]]:
         ip = self.ip
-        spec: Optional[LoopSpec] = ip.loopspecs.get((fr.qual, ordinal))
+        spec: Optional[LoopSpec] = self.find_loopspec(fr, node, ordinal)
         if spec is None:
             raise Unsupported(f"loop #{ordinal} of {fr.qual} has no invariant in the spec")
         lname = spec.name or f"loop{ordinal}"
@@ -505,6 +505,21 @@ class Theory:
         for se in exits_after:
             out.append((se, NORMAL))
         return out
+
+    def find_loopspec(self, fr: Frame, node, ordinal: int) -> Optional[LoopSpec]:
+        """loop invariants are anchored structurally: by the source text of what is iterated / tested when the spec
+        gives one (so that an inserted or removed loop elsewhere in the function does not shift the anchor), else by
+        the loop's ordinal in the function"""
+        ip = self.ip
+        text = ast.unparse(node.iter if isinstance(node, ast.For) else node.test)
+        same_fn = [(k, v) for k, v in ip.loopspecs.items() if k[0] == fr.qual]
+        by_sig = [v for _k, v in same_fn if v.sig is not None and v.sig == text]
+        if len(by_sig) == 1:
+            return by_sig[0]
+        spec = ip.loopspecs.get((fr.qual, ordinal))
+        if spec is not None and (spec.sig is None or spec.sig == text or not by_sig):
+            return spec
+        return spec
 
     def after_loop_havoc(self, s: St, st0: St, mod_shared) -> None:
         pass
